@@ -2,8 +2,8 @@
 
 Exhaustive enumeration (E3) of a finite input domain, every element compared
 with the reference model M1 (vf/models/hashes.py):
- (a) lengths 0..257 (thorough: 0..1029) x 6 byte-pattern generators x boundary seeds
- (b) every byte value at every position of every length 0..L (24; thorough 72), two backgrounds
+ (a) lengths 0..257 (thorough: 0..4099) x 6 byte-pattern generators x boundary seeds
+ (b) every byte value at every position of every length 0..L (24; thorough 128), two backgrounds
  (c) the same key taken as a slice at offsets 0..15 of a larger buffer, and
      built by several different constructions (bytes(), bytearray, join, slice)
  (d) SMHasher verification values
@@ -71,7 +71,7 @@ def _check(rep, impl, name, key, seed, where):
 def digest_a(impl, salt=0):
     """Digest over family (a); also used by the second interpreter."""
     d = hashlib.sha256()
-    for n in range(0, NA):
+    for n in range(0, 258):
         for key in _patterns(n, salt):
             for name in ("fasthash64", "fasthash32", "murmur3"):
                 for seed in FUNCS[name][1]:
@@ -154,8 +154,8 @@ def _second_collect(child):
 def run(rep):
     impl = _impl()
     salt = rep.seed % 251
-    L = 24 if rep.tier == "quick" else 72
-    NA = 258 if rep.tier == "quick" else 1030  # lengths of part (a)
+    L = 24 if rep.tier == "quick" else 128
+    NA = 258 if rep.tier == "quick" else 4100  # lengths of part (a)
 
     # (f) start the second interpreter now, collect at the end
     child = _second_start(salt)
